@@ -97,6 +97,11 @@ type service struct {
 	// Whether this is service is closed or not.
 	closed int64
 
+	// Held by stop() for the whole teardown, so that a second caller (Server.Close
+	// while the connection's own processor is already tearing it down, or the
+	// other way round) returns only once the teardown has finished.
+	stopMu sync.Mutex
+
 	// Quit signal for determining when this service should end. If channel is closed,
 	// then exit.
 	done chan struct{}
@@ -211,6 +216,9 @@ func (svc *service) stop() {
 			log.Errorf("(%s) Recovering from panic: %v", svc.cid(), r)
 		}
 	}()
+
+	svc.stopMu.Lock()
+	defer svc.stopMu.Unlock()
 
 	doit := atomic.CompareAndSwapInt64(&svc.closed, 0, 1)
 	if !doit {
